@@ -460,9 +460,9 @@ def paired_run(fns):
         if f.name in NET:
             exp[NET[f.name][0]] = NET[f.name][1]
         if msg:
-            failures.append(fail(f.name, 'paired.%s' % f.name, 'begin/end not paired: ' + msg, ['C13', 'C07', 'C12'], f))
+            failures.append(fail(f.name, 'paired.%s' % f.name, 'begin/end not paired: ' + msg, ['C13', 'C07', 'C12', 'C04', 'C06'], f))
         elif depth != exp:
-            failures.append(fail(f.name, 'paired.%s' % f.name, 'begin/end not balanced at the end: %s (expected %s)' % (depth, exp), ['C13', 'C07', 'C12'], f))
+            failures.append(fail(f.name, 'paired.%s' % f.name, 'begin/end not balanced at the end: %s (expected %s)' % (depth, exp), ['C13', 'C07', 'C12', 'C04', 'C06'], f))
     return dict(failures=failures, checked=checked)
 
 
